@@ -637,7 +637,26 @@ def model_target(rng, api: str, idx: int):
 # --------------------------------------------------------------------------------------------
 
 HISTORY_OPS = ["tr_ok", "tr_refused", "opt_ok", "rw_ok", "rw_check_raise", "pat_raise", "rw_setfail", "eval_raise",
-               "fold_ok", "cv_ok", "cv_raise"]
+               "fold_ok", "cv_ok", "cv_raise", "tr_roles"]
+
+
+def roles_script(fname: str, which: int) -> str:
+    """A script in which the names that script targets use for TENSORS (their parameters x, y and every local name of the
+    generator's vocabulary) play another role: Python constants (which == 0: float, 1: int, 2: bool-free mix) that are used
+    as operands, or (which == 3) attribute-like module constants shadowed by locals.  Whatever a translation remembers about
+    a NAME must not leak into the next translation."""
+    vals = {0: ["2.0", "0.5", "1.5"], 1: ["2", "3", "1"], 2: ["2.0", "3", "0.25"], 3: ["KG", "KI", "2.0"]}[which % 4]
+    L = ["@script()", f"def {fname}(p0: FLOAT[3], p1: INT64[3]):", "    r = op.Identity(p0)", "    ri = op.Identity(p1)"]
+    for k, w in enumerate(["x", "y"] + WORDS):
+        v = vals[k % len(vals)]
+        L.append(f"    {w} = {v}")
+        is_int = v in ("2", "3", "1", "KI")
+        if is_int:
+            L.append(f"    ri = ri {'+-*'[k % 3]} {w}")
+        else:
+            L.append(f"    r = r {'+-*'[k % 3]} {w}")
+    L.append("    return r, ri")
+    return "\n".join(L) + "\n"
 
 
 def history_op(rng, name: str):
@@ -646,6 +665,8 @@ def history_op(rng, name: str):
         return {"h": name, "script": script_target_params(rng, rng.randrange(100))}
     if name == "tr_refused":
         return {"h": name, "which": rng.randrange(len(REFUSED))}
+    if name == "tr_roles":
+        return {"h": name, "which": rng.randrange(4)}
     if name == "opt_ok":
         return {"h": name, "model": model_target(rng, "optimize", rng.randrange(100))}
     if name == "rw_ok":
@@ -705,6 +726,7 @@ def sibling_history(rng, target):
     if target["api"] == "script":
         k = target["script"]["kind"]
         return [{"h": "tr_ok", "script": {"kind": k, "nlive": 3 + rng.randrange(4), "gseed": rng.randrange(1 << 30)}},
+                {"h": "tr_roles", "which": rng.randrange(4)},
                 {"h": "tr_refused", "which": rng.randrange(len(REFUSED))},
                 {"h": "tr_ok", "script": {"kind": k, "nlive": target["script"]["nlive"], "gseed": rng.randrange(1 << 30)}}]
     t = target["template"]
